@@ -277,7 +277,9 @@ def lw(ctx):
                 if not guards:
                     out.append(bad('LW2', key, 'condition field %s changed without holding %s' % (cf, cls), loc=fn.loc(bb, i), fn=fname))
                     continue
-                takes = [(b2, t) for (b2, m, t) in u.calls.get(W, []) if m == 'take' and (_guards_at(ctx, fn, cls, b2, 'term') & guards)]
+                # taking the waker out or cloning it are the same to the sleeper: it is woken (a clone leaves a spent registration behind,
+                # which only costs a spurious wake-up later)
+                takes = [(b2, t) for (b2, m, t) in u.calls.get(W, []) if m in ('take', 'clone') and (_guards_at(ctx, fn, cls, b2, 'term') & guards)]
                 if not takes:
                     out.append(bad('LW2', key, 'makes the sleeper\'s condition true (%s.%s) but does not take the waker slot %s in the same critical section: a sleeper registered there is never woken (%s)' % (cf, kind, W, slot['what']), loc=fn.loc(bb, i), fn=fname))
                     continue
